@@ -65,6 +65,7 @@ pub struct ConnectionStats;
 //@include contracts/shared/send_loop_specs.rs
 //@include contracts/shared/client_send_specs.rs
 //@include contracts/shared/client_send_ready_specs.rs
+//@include contracts/shared/client_record_specs.rs
 
 impl ConnectionStats {
     #[verifier::external_body]
@@ -104,6 +105,7 @@ impl RenetClient {
 //@specfile contracts/shared/RenetClient.get_packets_to_send.spec
 //@letarg /packets\.append\(&mut channel\.get_packets_to_send\(&mut self\.packet_sequence, &mut available_bytes, self\.current_time\)\);/ rel_packets
 //@letarg /packets\.append\(&mut channel\.get_packets_to_send\(&mut self\.packet_sequence, &mut available_bytes\)\);/ unrel_packets
+//@cpspec 1 -> (o: u64) ensures o == __cp1.0
 //@entry
         let ghost s0 = *self;
         let ghost seq0 = self.packet_sequence as int;
@@ -178,10 +180,13 @@ impl RenetClient {
                 itQ.seq().len() == pk.len(),
                 forall|i: int| 0 <= i < pk.len() ==> *(#[trigger] itQ.seq()[i]) == pk[i],
                 *self == (RenetClient { sent_packets: self.sent_packets, ..s2 }),
+                sent_at == s2.current_time,
+                records_written(s2.sent_packets@, self.sent_packets@, pk, seq0, itQ.index() as int, s2.current_time),   // @C01,C08,C15 get_packets_to_send.each_record_names_exactly_what_its_packet_carried
 //@after /for packet in packets\.iter\(\) \{/
             proof {
                 assert(*packet == pk[itQ.index() as int]);
                 lemma_all_sendable_at(pk, seq0, itQ.index() as int);
+                assert(packet_seq(*packet) == seq0 + itQ.index());
             }
 //@before /let last_range = ack_ranges\.last\(\)\.unwrap\(\);/
                     proof { lemma_ranges_wf_at(ack_ranges@, ack_ranges@.len() - 1); }
